@@ -124,3 +124,82 @@ Definition rl (ns : Z) (fs : b64) : b64 := fdiv (of_Z ns) fs.
 (* byte offset in the file of sample i, channel j of the C-ordered int16 memmap
    of shape (ns, nc): what self._raw[i, j] dereferences (2 bytes from there) *)
 Definition byte_offset (nc i j : Z) : Z := 2 * (i * nc + j).
+
+(* ------------------------------------------------------------------ *)
+(* The reader as a stateful object on a file whose size changes         *)
+(* ------------------------------------------------------------------ *)
+(* Reader.__init__ caches  self.nbytes = self.file_bin.stat().st_size .
+   Reader.open compares  nc * ns * itemsize != self.nbytes  (the CACHED size) but computes
+   ftsec = self.file_bin.stat().st_size // (itemsize * nc) / fs  from a FRESH stat, and
+   np.memmap checks the length against the file as it is now.  OnlineReader.ns stats the
+   file at every evaluation.  `open_at online cached cur ...` is Reader.open when the
+   constructor saw `cached` bytes and the file now has `cur` bytes; it returns the outcome
+   and meta.get('fileTimeSecs') afterwards (the rewrite happens before np.memmap can raise). *)
+Definition open_at (online : bool) (cached cur nc : Z) (fts : option b64) (fs : b64)
+  : outcome * option b64 :=
+  match reader_ns online cur nc fts fs with
+  | NsInt => (IntError, fts)
+  | NsType => (TypeErr, fts)
+  | NsOk ns0 =>
+      let mismatch := negb (nc * ns0 * 2 =? cached) in
+      let fts' := if mismatch then Some (fdiv (of_Z (cur / (2 * nc))) fs) else fts in
+      match reader_ns online cur nc fts' fs with
+      | NsInt => (IntError, fts')
+      | NsType => (TypeErr, fts')
+      | NsOk ns1 =>
+          (if memmap_ok cur ns1 nc then Opened ns1 nc fts' mismatch else MmapError, fts')
+      end
+  end.
+
+Record reader := mkReader {
+  r_online : bool;            (* OnlineReader / Reader *)
+  r_nc : Z;                   (* nSavedChans *)
+  r_fs : b64;                 (* sampling rate of the meta file *)
+  r_cached : Z;               (* self.nbytes *)
+  r_fts : option b64;         (* self.meta.get('fileTimeSecs') *)
+  r_mapped : option Z         (* frames of self._raw (None: not open) *)
+}.
+
+Inductive op :=
+  | OpResize (newsize : Z)    (* the writer appends (or the file is cut): the file now has newsize bytes *)
+  | OpOpen                    (* sr.open() — also a re-open of an already open reader *)
+  | OpEnter.                  (* sr.__enter__(): opens only if not self.is_open *)
+
+Definition do_open (cur : Z) (r : reader) : reader * outcome :=
+  let '(o, fts') := open_at (r_online r) (r_cached r) cur (r_nc r) (r_fts r) (r_fs r) in
+  (mkReader (r_online r) (r_nc r) (r_fs r) (r_cached r) fts'
+            (match o with Opened ns _ _ _ => Some ns | _ => r_mapped r end), o).
+
+(* one step: new (file size, reader), and the outcome of the open attempt if there was one *)
+Definition step (w : Z * reader) (o : op) : (Z * reader) * option outcome :=
+  let '(cur, r) := w in
+  match o with
+  | OpResize n => ((n, r), None)
+  | OpOpen => let '(r', out) := do_open cur r in ((cur, r'), Some out)
+  | OpEnter =>
+      match r_mapped r with
+      | Some _ => ((cur, r), None)
+      | None => let '(r', out) := do_open cur r in ((cur, r'), Some out)
+      end
+  end.
+
+(* Reader(file, open=...) / OnlineReader(file, open=...) on a file of `cur` bytes *)
+Definition construct (online : bool) (nc : Z) (fs : b64) (fts : option b64) (cur : Z) (do_op : bool)
+  : (Z * reader) * option outcome :=
+  let r := mkReader online nc fs cur fts None in
+  if do_op then step (cur, r) OpOpen else ((cur, r), None).
+
+Fixpoint exec (w : Z * reader) (ops : list op) : list ((Z * reader) * option outcome) :=
+  match ops with
+  | [] => []
+  | o :: tl => let '(w', out) := step w o in (w', out) :: exec w' tl
+  end.
+
+(* the whole history: state after the constructor, then after every operation *)
+Definition history (online : bool) (nc : Z) (fs : b64) (fts : option b64) (cur0 : Z) (do_op : bool)
+  (ops : list op) : list ((Z * reader) * option outcome) :=
+  let '(w, out) := construct online nc fs fts cur0 do_op in (w, out) :: exec w ops.
+
+(* sr.ns evaluated now (OnlineReader: fresh stat; Reader: from the meta dictionary) *)
+Definition live_ns (cur : Z) (r : reader) : nsres :=
+  reader_ns (r_online r) cur (r_nc r) (r_fts r) (r_fs r).
